@@ -11,7 +11,8 @@ from sx import Sym
 RULE = ("seeded interleavings (length<=14) over 2-4 instances of each item-holding block class (OpticalSetupBlock, "
         "TemporalEventsData, EMG, Data3D, ForceTorque3D, ForcePlatformsCalibrationDataBlock, ForcePlatformsDataBlock): construct "
         "without items, construct with an own item list (where the constructor takes one), decode the same bytes again, add an "
-        "item, remove an item, encode; after every step the items (by identity) and the encoding of EVERY instance are compared "
+        "item, remove an item, edit an item in place (a sample, a label, an index), encode; items have 2 frames, in one run of eight "
+        "1023/1024/1025/4096 frames (wholly missing, wholly present, with gaps); after every step the items (by identity) and the encoding of EVERY instance are compared "
         "with the store model. non-trivial = interleaving that edits one instance after a second one exists; distinct by (class, ops)")
 ASSUMPTIONS = ["object identity is CPython's; the store model is only as good as this tie",
                "each constructor call is given its own list object (passing one list to two constructors is caller-induced aliasing)"]
@@ -36,17 +37,63 @@ def new_item(kind, rng):
         return EMGTrack("s" + str(rng.randrange(1000)), A.frames_array(A.gen_frames(rng, 1, N, mask=[True] * N), 1)[:, 0])
     if kind == "data3d":
         from basictdf.tdfData3D import MarkerTrack
-        return MarkerTrack("m", A.frames_array(A.gen_frames(rng, 3, N), 3))
+        return MarkerTrack("m", A.frames_array(gen_item_frames(rng, 3, True), 3))
     if kind == "force3d":
         from basictdf.tdfForce3D import ForceTorqueTrack
-        a = A.frames_array(A.gen_frames(rng, 9, N), 9)
+        a = A.frames_array(gen_item_frames(rng, 9, True), 9)
         return ForceTorqueTrack("f", a[:, 0:3].copy(), a[:, 3:6].copy(), a[:, 6:9].copy())
     if kind == "platcalib":
         from basictdf.tdfForcePlatformsCalibration import ForcePlatformInfo
         return ForcePlatformInfo("p", A.f32(A.gen_vec(rng, 2)), A.f32(A.gen_vec(rng, 12)).reshape(4, 3))
     from basictdf.tdfForcePlatformsData import ForcePlatformData
-    a = A.frames_array(A.gen_frames(rng, 6, N), 6)
+    a = A.frames_array(gen_item_frames(rng, 6, True), 6)
     return ForcePlatformData(a[:, 0:2].copy(), a[:, 2:5].copy(), a[:, 5].copy())
+
+
+def gen_item_frames(rng, k, big):
+    """frames of one item: in big runs also wholly missing and wholly present items (no run / one run on disk)"""
+    if N > 16 or PROFILE:
+        how = PROFILE or rng.choice(["missing", "present", "gaps"])
+        if how == "missing":
+            return [None] * N
+        row = [A.gen_f32(rng) for _ in range(k)]
+        fr = [list(row) for _ in range(N)]
+        if how == "gaps":
+            for j in rng.sample(range(N), min(3, N - 1)):
+                fr[j] = None
+        return fr
+    return A.gen_frames(rng, k, N)
+
+
+def poke(obj, attr, idx, v):
+    """in-place write where the array allows it; arrays decoded as read-only views are replaced by an edited copy"""
+    a = getattr(obj, attr)
+    if a.flags.writeable:
+        a[idx] = v
+    else:
+        a = a.copy()
+        a[idx] = v
+        setattr(obj, attr, a)
+
+
+def edit_item(kind, it, rng):
+    """edits the content of one item through its public attributes"""
+    v = np.float32(rng.choice([1.5, -2.25, 1000.0]) + rng.randrange(100))
+    if kind == "optical":
+        it.logical_camera_index = (int(it.logical_camera_index) + 1) % 1000
+    elif kind == "events":
+        if len(it.values):
+            poke(it, "values", 0, v)
+        else:
+            it.label = it.label + "x"
+    elif kind in ("emg", "data3d"):
+        poke(it, "data", rng.randrange(it.data.shape[0]), v)
+    elif kind == "platcalib":
+        poke(it, "position", rng.randrange(4), v)
+    else:
+        j = rng.randrange(it.force.shape[0])
+        for attr in ("application_point", "force", "torque"):
+            poke(it, attr, j, v)
 
 
 def construct(kind, items):
@@ -122,74 +169,124 @@ def items_of(kind, b):
     return list(iter(b))
 
 
+PROFILE = None
+
+
+def random_action(rng, n_insts):
+    r = rng.random()
+    if r < 0.22 or n_insts < 2:
+        return ("construct", None if rng.random() < 0.55 else rng.randrange(0, 3))
+    if r < 0.34:
+        return ("decode", rng.randrange(n_insts))
+    if r < 0.52:
+        return ("edit", rng.randrange(n_insts), None)
+    if r < 0.8:
+        return ("add", rng.randrange(n_insts))
+    return ("remove", rng.randrange(n_insts), None)
+
+
+def scripted_plans():
+    """decode-twice scenarios run for every class, item length and item profile: build a block with two items, decode its
+    bytes twice, edit an item of the first decode, decode the ORIGINAL bytes twice more, edit again, add to a decode"""
+    return [[("construct", 2), ("decode", 0), ("edit", 1, 0), ("decode", 0), ("edit", 3, 1), ("add", 2), ("decode", 0), ("remove", 5, 0), ("edit", 6, 0)]]
+
+
+def one_run(ctx, kind, rng, plan=None, steps=0):
+    insts, ids, nid = [], {}, [100]
+    ops, obs, srcs = [], [], {}
+
+    def reg(o):
+        ids[id(o)] = nid[0]
+        nid[0] += 1
+        return ids[id(o)]
+    actions = list(plan) if plan else None
+    for _ in range(len(actions) if actions else steps):
+        act = actions.pop(0) if actions else random_action(rng, len(insts))
+        try:
+            if act[0] == "construct":
+                if act[1] is None:
+                    insts.append(construct(kind, None))
+                    ops.append([Sym("construct"), Sym("none")])
+                else:
+                    its = [new_item(kind, rng) for _ in range(act[1])]
+                    if kind == "emg":
+                        for j, it in enumerate(its):
+                            it.label = f"c{nid[0]}_{j}"
+                    mids = [reg(o) for o in its]
+                    insts.append(construct(kind, its))
+                    ops.append([Sym("construct"), mids])
+            elif act[0] == "decode":
+                src = act[1]
+                enc = A.encode(insts[src])
+                srcs[len(ops) + 1] = enc
+                dec = type(insts[src])._build(io.BytesIO(enc), insts[src].format.value)
+                dec2 = type(insts[src])._build(io.BytesIO(enc), insts[src].format.value)
+                m1 = [reg(o) for o in items_of(kind, dec)]
+                m2 = [reg(o) for o in items_of(kind, dec2)]
+                insts += [dec, dec2]
+                ops += [[Sym("decode"), m1], [Sym("decode"), m2]]
+                obs.append(None)
+            elif act[0] == "edit":
+                i = act[1]
+                its = items_of(kind, insts[i])
+                if not its:
+                    continue
+                k = act[2] if act[2] is not None else rng.randrange(len(its))
+                edit_item(kind, its[k], rng)
+                ops.append([Sym("edit"), i, k])
+            elif act[0] == "add":
+                i = act[1]
+                it = new_item(kind, rng)
+                if kind == "emg":
+                    it.label = f"a{nid[0]}"
+                add(kind, insts[i], it)
+                ops.append([Sym("add"), i, reg(it)])
+            else:
+                i = act[1]
+                n = len(items_of(kind, insts[i]))
+                if n == 0:
+                    continue
+                k = act[2] if act[2] is not None else rng.randrange(n)
+                remove(kind, insts[i], k)
+                ops.append([Sym("remove"), i, k])
+        except Exception as e:
+            ctx.fail(f"{kind}: a valid construct/decode/add/remove/edit raised {type(e).__name__}: {str(e)[:80]}", dict(kind=kind, frames=N, ops=[str(o) for o in ops]), ident=f"{kind} operation raises")
+            return None
+        snap = []
+        for b in insts:
+            try:
+                snap.append(([ids.get(id(o), -1) for o in items_of(kind, b)], A.encode(b)))
+            except Exception as e:
+                snap.append((None, type(e).__name__))
+        obs.append(snap)
+    return (kind, ops, obs, N, srcs)
+
+
 def run(ctx):
     rng = ctx.rng
     runs = []
+    global N, PROFILE
+    # scripted decode-twice scenarios: every class x item length x item profile
+    for kind in CLASSES:
+        framed = kind in ("emg", "data3d", "force3d", "platdata")
+        for n in ([2, 1023, 1024, 4096] + ([1025, 16384, 65536] if ctx.thorough else [])) if framed else [2]:
+            for prof in (["missing", "present", "gaps"] if framed and kind != "emg" else [None]):
+                for plan in scripted_plans():
+                    N, PROFILE = n, prof
+                    r = one_run(ctx, kind, rng, plan=plan)
+                    if r:
+                        runs.append(r)
+    PROFILE = None
     for _ in range(ctx.n(500, 20000)):
         kind = rng.choice(CLASSES)
-        insts, ids, nid = [], {}, [100]
-        ops, obs = [], []
-
-        def reg(o):
-            ids[id(o)] = nid[0]
-            nid[0] += 1
-            return ids[id(o)]
-        ok = True
-        for _ in range(rng.randrange(3, 15)):
-            r = rng.random()
-            try:
-                if r < 0.22 or len(insts) < 2:
-                    if rng.random() < 0.55:
-                        insts.append(construct(kind, None))
-                        ops.append([Sym("construct"), Sym("none")])
-                    else:
-                        its = [new_item(kind, rng) for _ in range(rng.randrange(0, 3))]
-                        if kind == "emg":
-                            for j, it in enumerate(its):
-                                it.label = f"c{nid[0]}_{j}"
-                        mids = [reg(o) for o in its]
-                        insts.append(construct(kind, its))
-                        ops.append([Sym("construct"), mids])
-                elif r < 0.34:
-                    src = rng.randrange(len(insts))
-                    enc = A.encode(insts[src])
-                    dec = type(insts[src])._build(io.BytesIO(enc), insts[src].format.value)
-                    dec2 = type(insts[src])._build(io.BytesIO(enc), insts[src].format.value)
-                    m1 = [reg(o) for o in items_of(kind, dec)]
-                    m2 = [reg(o) for o in items_of(kind, dec2)]
-                    insts += [dec, dec2]
-                    ops += [[Sym("decode"), m1], [Sym("decode"), m2]]
-                    obs.append(None)
-                elif r < 0.75:
-                    i = rng.randrange(len(insts))
-                    it = new_item(kind, rng)
-                    if kind == "emg":
-                        it.label = f"a{nid[0]}"
-                    add(kind, insts[i], it)
-                    ops.append([Sym("add"), i, reg(it)])
-                else:
-                    i = rng.randrange(len(insts))
-                    n = len(items_of(kind, insts[i]))
-                    if n == 0:
-                        continue
-                    k = rng.randrange(n)
-                    remove(kind, insts[i], k)
-                    ops.append([Sym("remove"), i, k])
-            except Exception as e:
-                ctx.fail(f"{kind}: a valid construct/decode/add/remove raised {type(e).__name__}: {str(e)[:80]}", dict(kind=kind, ops=[str(o) for o in ops]), ident=f"{kind} operation raises")
-                ok = False
-                break
-            snap = []
-            for b in insts:
-                try:
-                    snap.append(([ids.get(id(o), -1) for o in items_of(kind, b)], A.encode(b)))
-                except Exception as e:
-                    snap.append((None, type(e).__name__))
-            obs.append(snap)
-        if ok:
-            runs.append((kind, ops, obs))
-    replies = common.drv_batch([[Sym("store.run"), ops] for _, ops, _ in runs])
-    for (kind, ops, obs), rep in zip(runs, replies):
+        # most runs use 2-frame items; some use long ones (size-dependent code paths: 1 Ki, 4 Ki frames and their neighbours)
+        N = 2 if rng.random() < 0.88 else rng.choice([1023, 1024, 1025, 4096])
+        r = one_run(ctx, kind, rng, steps=rng.randrange(3, 15) if N == 2 else rng.randrange(3, 8))
+        if r:
+            runs.append(r)
+    N = 2
+    replies = common.drv_batch([[Sym("store.run"), ops] for _, ops, _, _, _ in runs])
+    for (kind, ops, obs, nframes, srcs), rep in zip(runs, replies):
         obs = [o for o in obs]
         # align: a decode pair produced two model ops and (None, snapshot)
         snaps = []
@@ -200,10 +297,11 @@ def run(ctx):
             else:
                 snaps.append(o)
         assert len(snaps) == len(ops), (len(snaps), len(ops))
-        edits_after_second = any(op[0] in ("add", "remove") for op in ops[2:])
-        ctx.case((kind, str(ops)), nontrivial=edits_after_second, sample=dict(kind=kind, ops=[str(o)[:40] for o in ops][:8]), tags=[kind] + [str(o[0]) for o in ops])
-        rp = dict(kind=kind, ops=[str(o) for o in ops])
-        prev = None
+        edits_after_second = any(op[0] in ("add", "remove", "edit") for op in ops[2:])
+        ctx.case((kind, nframes, str(ops)), nontrivial=edits_after_second, sample=dict(kind=kind, frames=nframes, ops=[str(o)[:40] for o in ops][:8]),
+                 tags=[kind, "long-items" if nframes > 16 else "short-items"] + [str(o[0]) for o in ops])
+        rp = dict(kind=kind, frames=nframes, ops=[str(o) for o in ops])
+        prev = mprev = None
         for i, (op, snap, m) in enumerate(zip(ops, snaps, rep)):
             if snap is None:
                 continue
@@ -211,20 +309,38 @@ def run(ctx):
             if any(c is None for c in real_cells):
                 ctx.fail(f"{kind}: an instance can no longer be iterated/encoded after step {i} {op}", dict(rp, upto=i), ident=f"{kind} instance unusable")
                 break
-            model_cells = [list(c) for c in m]
+            model_cells = [list(c[0]) for c in m]
             # oracle: every OTHER instance is unchanged (items and encoding)
-            if prev is not None and op[0] in ("add", "remove"):
+            if prev is not None and op[0] in ("add", "remove", "edit"):
+                hit = False
                 for j, (before, after) in enumerate(zip(prev, snap)):
                     if j != op[1] and before != after:
-                        ctx.fail(f"{kind}: editing instance {op[1]} changed instance {j} (items {before[0]} -> {after[0]})", dict(rp, upto=i), ident=f"{kind} instances share state")
+                        what = f"items {before[0]} -> {after[0]}" if before[0] != after[0] else "its encoding changed"
+                        ctx.fail(f"{kind}: {'editing an item of' if op[0] == 'edit' else 'editing'} instance {op[1]} changed instance {j} ({what})", dict(rp, upto=i, frames=nframes),
+                                 ident=f"{kind} instances share state")
+                        hit = True
                         break
+                if hit:
+                    break
+            if prev is not None and op[0] == "decode" and i >= 1 and ops[i - 1][0] == "decode":
+                # the two decodes of one encoding: same content, whatever was done to earlier decodes of the same bytes
+                if snap[-1][1] != snap[-2][1] or snap[-1][1] != srcs.get(i):
+                    ctx.fail(f"{kind}: decoding the same bytes again gives a block that encodes differently (state left behind by an earlier decode or edit)",
+                             dict(rp, upto=i, frames=nframes), ident=f"{kind} decode depends on history")
+                    break
             if op[0] == "construct" and op[1] == "none" and real_cells[-1] != []:
                 ctx.fail(f"{kind}: a block constructed without items starts with {len(real_cells[-1])} items", dict(rp, upto=i), ident=f"{kind} new block not empty")
                 break
             if real_cells != model_cells:
                 ctx.diff("store.cells", f"{kind} step {i} {op}: real {real_cells} model {model_cells}", dict(rp, upto=i))
                 break
-            prev = snap
+            if prev is not None and mprev is not None and op[0] == "edit":
+                rc = [a != b for a, b in zip(prev, snap)]
+                mc = [list(a) != list(b) for a, b in zip(mprev, m)]
+                if rc != mc:
+                    ctx.diff("store.encoding", f"{kind} step {i} {op}: instances whose encoding changed: real {rc} model {mc}", dict(rp, upto=i))
+                    break
+            prev, mprev = snap, m
 
 
 def replay(path):
